@@ -98,10 +98,10 @@ Definition safeD (D : Z -> Z -> Z -> Prop) {A} (P : A -> Prop) (m : M A) : Prop 
   forall s ts, st_ok s -> D (c_w s) (c_h s) (c_fix s) ->
     match m s ts with Ok a _ _ => P a | Oob _ => False | _ => True end.
 
-Lemma safeD_of_safe D {A} (P : A -> Prop) m : safeP P m -> safeD D P m.
+Lemma safeD_of_safe (D : Z -> Z -> Z -> Prop) {A} (P : A -> Prop) m : safeP P m -> safeD D P m.
 Proof. intros H s ts Hs _. exact (H s ts Hs). Qed.
 
-Lemma safeD_bind D {A B} (P : A -> Prop) (Q : B -> Prop) (m : M A) (k : A -> M B) :
+Lemma safeD_bind (D : Z -> Z -> Z -> Prop) {A B} (P : A -> Prop) (Q : B -> Prop) (m : M A) (k : A -> M B) :
   sound m -> frame m -> safeD D P m -> (forall a, P a -> safeD D Q (k a)) -> safeD D Q (bind m k).
 Proof.
   intros Hs Hf Hm Hk s ts H HD. unfold bind. specialize (Hs s ts (proj1 H)). specialize (Hm s ts H HD). specialize (Hf s ts).
@@ -110,15 +110,15 @@ Proof.
   apply (Hk a Hm s1 ts1 (st_ok_keeps _ _ K H)). rewrite E1, E2, E3. exact HD.
 Qed.
 
-Lemma safeD_bind_get D {B} (Q : B -> Prop) (k : cst -> M B) :
+Lemma safeD_bind_get (D : Z -> Z -> Z -> Prop) {B} (Q : B -> Prop) (k : cst -> M B) :
   (forall s, st_ok s -> D (c_w s) (c_h s) (c_fix s) -> forall ts,
      match k s s ts with Ok a _ _ => Q a | Oob _ => False | _ => True end) ->
   safeD D Q (bind get_st k).
 Proof. intros Hk s ts H HD. unfold bind, get_st. apply Hk; assumption. Qed.
 
-Lemma safeD_ret D {A} (P : A -> Prop) a : P a -> safeD D P (ret a).
+Lemma safeD_ret (D : Z -> Z -> Z -> Prop) {A} (P : A -> Prop) a : P a -> safeD D P (ret a).
 Proof. intros Ha s ts _ _. exact Ha. Qed.
-Lemma safeD_fail D {A} (P : A -> Prop) : safeD D P (@failM A).
+Lemma safeD_fail (D : Z -> Z -> Z -> Prop) {A} (P : A -> Prop) : safeD D P (@failM A).
 Proof. intros s ts _ _. exact I. Qed.
 
 (* ---------------------------------------------------------------- cursors over a scratch area *)
@@ -210,4 +210,421 @@ Proof.
   destruct (Z.ltb_spec cap (zlen data)); [apply safeD_fail|].
   apply safe_ultrazip_walk; [destruct Hs as [_ [Hb _]]; lia|].
   unfold cur_ok. cbn [bc_data bc_pos]. split; [exact Hd|lia].
+Qed.
+
+(* ---------------------------------------------------------------- rows that fit *)
+Lemma safeD_weaken (D D' : Z -> Z -> Z -> Prop) {A} (P : A -> Prop) m :
+  (forall W H fx, D' W H fx -> D W H fx) -> safeD D P m -> safeD D' P m.
+Proof. intros HD Hm s ts Hs H'. apply Hm; auto. Qed.
+
+Lemma write_rows_from_some W x : 0 <= x -> forall fb rows k,
+  Forall (fun r => zlen r = W) fb -> Forall (fun r => x + zlen r <= W) rows -> (k + length rows <= length fb)%nat ->
+  write_rows_from fb x k rows <> None.
+Proof.
+  intros Hx. induction fb as [|row fb IH]; intros rows k Hfb Hrows Hlen.
+  - destruct rows; cbn [write_rows_from]; [discriminate|]. cbn [length] in Hlen. lia.
+  - destruct rows as [|r rs]; [cbn [write_rows_from]; discriminate|].
+    pose proof (Forall_inv Hfb) as Hrow. pose proof (Forall_inv_tail Hfb) as Hfb'. cbn beta in Hrow.
+    destruct k as [|k]; cbn [write_rows_from].
+    + unfold row_write. pose proof (Forall_inv Hrows) as Hr. cbn beta in Hr.
+      destruct (Z.leb_spec 0 x); [|lia]. destruct (Z.leb_spec (x + zlen r) (zlen row)); [|lia]. cbn [andb].
+      specialize (IH rs O Hfb' (Forall_inv_tail Hrows) ltac:(cbn [length] in *; lia)).
+      destruct (write_rows_from fb x 0 rs); [discriminate|contradiction].
+    + specialize (IH (r :: rs) k Hfb' Hrows ltac:(cbn [length] in *; lia)).
+      destruct (write_rows_from fb x k (r :: rs)); [discriminate|contradiction].
+Qed.
+
+Lemma safe_write_rows code x y rows w h : 0 <= x -> 0 <= y -> Forall (fun r => zlen r <= w) rows -> zlen rows <= h ->
+  safeD (fun W H _ => x + w <= W /\ y + h <= H) (fun _ => True) (write_rowsM code x y rows).
+Proof.
+  intros Hx Hy Hr Hn s ts [(Hw0 & Hh0 & Hl & Hfb) _] [D1 D2]. unfold write_rowsM, fb_write_rows.
+  destruct rows as [|r rs] eqn:Er; [exact I|]. rewrite <- Er in *.
+  destruct (Z.ltb_spec y 0); [lia|].
+  pose proof (write_rows_from_some (c_w s) x Hx (c_fb s) rows (Z.to_nat y) Hfb) as G.
+  destruct (write_rows_from (c_fb s) x (Z.to_nat y) rows); [exact I|]. apply G; [|unfold zlen in *; lia|reflexivity].
+  eapply Forall_impl; [|exact Hr]. intros a Ha. cbn beta in *. lia.
+Qed.
+
+Lemma chunks_aux_count w : (1 <= w)%nat -> forall fuel l k, (length l <= k * w)%nat -> (length (chunks_aux fuel w l) <= k)%nat.
+Proof.
+  intros Hw. induction fuel as [|fuel IH]; intros l k Hk; cbn [chunks_aux]; [cbn; lia|].
+  destruct l as [|a l']; [cbn; lia|]. cbn [length].
+  destruct k as [|k]; [cbn [length] in Hk; lia|].
+  specialize (IH (skipn w (a :: l')) k). rewrite skipn_length in IH. cbn [length] in *. lia.
+Qed.
+Lemma chunks_count n l k : 1 <= n -> 0 <= k -> zlen l <= k * n -> zlen (chunks n l) <= k.
+Proof.
+  intros Hn Hk Hl. unfold chunks. destruct (Z.leb_spec n 0); [lia|].
+  pose proof (chunks_aux_count (Z.to_nat n) ltac:(lia) (length l) l (Z.to_nat k)) as G.
+  unfold zlen in *. assert (length l <= Z.to_nat k * Z.to_nat n)%nat by nia. specialize (G H0). lia.
+Qed.
+Lemma chunks_aux_each w : forall fuel l, Forall (fun r => (length r <= w)%nat) (chunks_aux fuel w l).
+Proof.
+  induction fuel as [|fuel IH]; intros l; cbn [chunks_aux]; [constructor|].
+  destruct l; [constructor|]. constructor; [apply firstn_le_length|apply IH].
+Qed.
+Lemma chunks_each n l : Forall (fun r => zlen r <= Z.max 0 n) (chunks n l).
+Proof.
+  unfold chunks. destruct (Z.leb_spec n 0); [constructor|].
+  eapply Forall_impl; [|apply chunks_aux_each]. intros r Hr. cbn beta in *. unfold zlen. lia.
+Qed.
+Lemma Forall_firstn_keep {A} (P : A -> Prop) n l : Forall P l -> Forall P (firstn n l).
+Proof. rewrite !Forall_forall. intros H x Hx. apply H. eapply in_firstn; eauto. Qed.
+
+Lemma safe_mapM {A B} (P : B -> Prop) (f : A -> M B) l : (forall a, sound (f a)) -> (forall a, safeP P (f a)) ->
+  safeP (fun r => Forall P r /\ length r = length l) (mapM f l).
+Proof.
+  intros Hs Hf. induction l as [|a l IH]; cbn [mapM].
+  - apply safe_ret. split; [constructor|reflexivity].
+  - eapply safe_bind; [apply Hs|apply Hf|]. intros b Hb.
+    eapply safe_bind; [apply sound_mapM; exact Hs|exact IH|]. intros bs [H1 H2].
+    apply safe_ret. split; [constructor; assumption|cbn [length]; lia].
+Qed.
+
+Lemma grad_row_len maxs cut : forall src prev left upleft first,
+  length (grad_row maxs cut src prev left upleft first) = length src.
+Proof.
+  induction src as [|[[dr dg] db] src IH]; intros prev left upleft first; cbn [grad_row]; [reflexivity|].
+  destruct prev as [|[[ur ug] ub] prev']; destruct maxs as [[mr mg] mb]; destruct left as [[lr lg] lb];
+    destruct upleft as [[qr qg] qb]; cbn [length]; rewrite IH; reflexivity.
+Qed.
+
+Lemma grad_rows_shape f cut rw : forall rows prev, Forall (fun r => zlen r <= rw) rows ->
+  Forall (fun r => zlen r <= rw) (fst (grad_rows f cut rows prev)) /\ length (fst (grad_rows f cut rows prev)) = length rows.
+Proof.
+  induction rows as [|r rows IH]; intros prev Hr; cbn [grad_rows]; [split; [constructor|reflexivity]|].
+  pose proof (Forall_inv Hr) as H1. cbn beta in H1.
+  match goal with |- context [grad_rows f cut rows ?d] => specialize (IH d (Forall_inv_tail Hr)); destruct (grad_rows f cut rows d) as [more last] end.
+  cbn [fst] in *. destruct IH as [I1 I2]. split; [|cbn [length]; lia].
+  constructor; [|exact I1]. unfold zlen in *. rewrite map_length, grad_row_len. exact H1.
+Qed.
+
+Lemma zlen_map {A B} (f : A -> B) l : zlen (map f l) = zlen l.
+Proof. unfold zlen. now rewrite map_length. Qed.
+
+Lemma safe_tight_rows code f flt (cut : bool) bypp rx y0 rw rh rowsize (rowsdata : list (list Z)) prev pb :
+  0 <= rx -> 0 <= y0 -> 0 <= rw -> 0 <= rh -> 1 <= pb -> pb = (if cut then 3 else bypp) ->
+  zlen rowsdata <= rh ->
+  match flt with
+  | TFPalette _ => True
+  | TFCopy => Forall (fun rb => zlen rb <= rw * pb) rowsdata
+  | TFGradient => Forall (fun rb => zlen rb <= rw * pb) rowsdata /\ rw <= cGradientRowMax
+  end ->
+  safeD (fun W H _ => rx + rw <= W /\ y0 + rh <= H) (fun _ => True)
+        (tight_rows code f flt cut bypp rx y0 rw rowsize rowsdata prev).
+Proof.
+  intros Hx Hy Hw Hh Hpb Epb Hn Hflt. unfold tight_rows. destruct flt as [|pal|].
+  - eapply safeD_bind; [auto with snd|auto with frm| |intros; apply safeD_ret; exact I].
+    apply safe_write_rows; auto; [|rewrite zlen_map; exact Hn].
+    apply Forall_forall. intros r Hr. apply in_map_iff in Hr. destruct Hr as (rb & <- & Hin).
+    rewrite Forall_forall in Hflt. specialize (Hflt rb Hin). cbn beta in Hflt.
+    destruct cut; [rewrite zlen_map|unfold px_of_bytes; rewrite zlen_map]; apply chunks_count; subst pb; lia.
+  - eapply (safeD_bind _ (fun rows => Forall (fun r => zlen r <= rw) rows /\ length rows = length rowsdata)).
+    + apply sound_mapM; intros; snd; try (apply sound_mapM; intros; snd).
+    + apply frame_mapM; intros; frm; apply frame_mapM; intros; frm.
+    + apply safeD_of_safe. apply safe_mapM.
+      * intros; snd; try (apply sound_mapM; intros; snd).
+      * intros rb. destruct (zlen pal =? 2).
+        -- eapply safeP_weaken; [|apply (safe_mapM (fun _ => True))].
+           ++ intros r [_ Hl]. cbn beta. unfold zlen. rewrite Hl. unfold packed_row, zseq. rewrite !map_length, seq_length. lia.
+           ++ intros; snd.
+           ++ intros; apply safe_ret; exact I.
+        -- eapply safeP_weaken; [|apply (safe_mapM (fun _ => True))].
+           ++ intros r [_ Hl]. cbn beta. unfold zlen. rewrite Hl, firstn_length. lia.
+           ++ intros; snd.
+           ++ intros i. destruct (nth_error pal (Z.to_nat i)); [apply safe_ret; exact I|].
+              eapply safe_bind; [auto with snd|apply safe_upd|]. intros; apply safe_ret; exact I.
+    + intros rows [R1 R2].
+      eapply safeD_bind; [auto with snd|auto with frm| |intros; apply safeD_ret; exact I].
+      apply safe_write_rows; auto. unfold zlen in *. lia.
+  - destruct Hflt as [Hflt Hg]. destruct (Z.ltb_spec cGradientRowMax rw); [lia|].
+    pose proof (grad_rows_shape f cut rw (map (grad_src f cut bypp) rowsdata) prev) as G.
+    destruct (grad_rows f cut (map (grad_src f cut bypp) rowsdata) prev) as [rows last]. cbn [fst] in G.
+    destruct G as [G1 G2].
+    { apply Forall_forall. intros r Hr. apply in_map_iff in Hr. destruct Hr as (rb & <- & Hin).
+      rewrite Forall_forall in Hflt. specialize (Hflt rb Hin). cbn beta in Hflt.
+      unfold grad_src. destruct cut; rewrite zlen_map; apply chunks_count; subst pb; lia. }
+    eapply safeD_bind; [auto with snd|auto with frm| |intros; apply safeD_ret; exact I].
+    apply safe_write_rows; auto. rewrite map_length in G2. unfold zlen in *. lia.
+Qed.
+
+Lemma frame_tight_rows code f flt cut bypp rx y0 rw rowsize rowsdata prev :
+  frame (tight_rows code f flt cut bypp rx y0 rw rowsize rowsdata prev).
+Proof.
+  unfold tight_rows. destruct flt; frm;
+    try (apply frame_mapM; intros; frm; try (apply frame_mapM; intros; frm)).
+Qed.
+Hint Resolve frame_tight_rows : frm.
+
+(* ---------------------------------------------------------------- Tight, fixes 1, 2, 3 (commits 0870444, 01fc326, 6de7bdd) *)
+Definition DT (rx ry rw rh : Z) : Z -> Z -> Z -> Prop := fun W H fx =>
+  Z.testbit fx 1 = true /\ Z.testbit fx 2 = true /\ Z.testbit fx 3 = true /\ rx + rw <= W /\ ry + rh <= H.
+
+Lemma dimfix_fold_zact c0 s :
+  dimfix s (fold_left (fun s i => if flag c0 (2 ^ i) then zact_set s (i + 1) false else s) [0; 1; 2; 3] s).
+Proof.
+  cbn [fold_left].
+  repeat match goal with |- context [if ?b then _ else _] => destruct b end;
+  repeat first [apply dimfix_refl | eapply dimfix_trans; [|apply dimfix_zact]].
+Qed.
+
+Lemma div8 a : (a * 8 + 7) / 8 = a.
+Proof. symmetry. apply (Z.div_unique _ 8 a 7); lia. Qed.
+
+Lemma is888_bpp f : is888 f = true -> f_bpp f = 32.
+Proof. unfold is888. intros H. lia. Qed.
+
+Lemma safeT_rd_u8 D : safeD D (fun _ => True) rd_u8.
+Proof. apply safeD_of_safe. eapply safeP_weaken; [|apply safe_rd_u8]. auto. Qed.
+Lemma safeT_rd D n : safeD D (fun _ => True) (rd n).
+Proof. apply safeD_of_safe. eapply safeP_weaken; [|apply safe_rd]. auto. Qed.
+
+Lemma firstn_rows_shape k n (l : list Z) rh : 0 <= rh -> k <= rh ->
+  zlen (firstn (Z.to_nat k) (chunks n l)) <= rh /\ Forall (fun rb => zlen rb <= Z.max 0 n) (firstn (Z.to_nat k) (chunks n l)).
+Proof.
+  intros Hh Hk. split; [unfold zlen; rewrite firstn_length; lia|]. apply Forall_firstn_keep. apply chunks_each.
+Qed.
+
+Lemma safe_dec_tight rx ry rw rh : 0 <= rx -> 0 <= ry -> 0 <= rw -> 0 <= rh ->
+  safeD (DT rx ry rw rh) (fun _ => True) (dec_tight rx ry rw rh).
+Proof.
+  intros Hx Hy Hw Hh. unfold dec_tight. apply safeD_bind_get. intros s Hs HD ts.
+  destruct HD as (F1 & F2 & F3 & HW & HH). unfold fixed. rewrite F1, F2, F3.
+  assert (HD : DT rx ry rw rh (c_w s) (c_h s) (c_fix s)) by (unfold DT; auto).
+  destruct Hs as [Hwf [Hb1 Hb2]].
+  set (f := c_fmt s) in *. set (bypp := bypp_of s) in *.
+  set (bits0 := if is888 f then 24 else f_bpp f).
+  set (pb := if is888 f then 3 else bypp).
+  assert (Hpb : 1 <= pb) by (unfold pb; destruct (is888 f); lia).
+  assert (Hrs : (rw * bits0 + 7) / 8 = rw * pb).
+  { unfold bits0, pb. destruct (is888 f).
+    - replace (rw * 24) with (rw * 3 * 8) by lia. apply div8.
+    - rewrite Hb2. replace (rw * (8 * bypp)) with (rw * bypp * 8) by lia. apply div8. }
+  assert (Hdim : forall W H fx, DT rx ry rw rh W H fx -> (fun W H (_ : Z) => rx + rw <= W /\ ry + rh <= H) W H fx).
+  { intros W H fx (_ & _ & _ & A & B). split; assumption. }
+  match goal with |- match ?m s ts with _ => _ end =>
+    assert (G : safeD (DT rx ry rw rh) (fun _ => True) m); [|exact (G s ts (conj Hwf (conj Hb1 Hb2)) HD)] end.
+  eapply safeD_bind; [auto with snd|auto with frm|apply safeT_rd_u8|]. intros c0 _.
+  eapply safeD_bind; [apply sound_upd; intros; now apply keeps_fold_zact|apply frame_upd; intros; apply dimfix_fold_zact
+                     |apply safeD_of_safe; apply safe_upd|]. intros _ _.
+  cbv zeta.
+  set (nozlib := Z.land (c0 / 16) cTightNoZlib =? cTightNoZlib).
+  match goal with |- context [if ?c =? cTightFill then _ else _] => set (cc := c) end.
+  destruct (cc =? cTightFill).
+  { destruct (is888 f).
+    - eapply safeD_bind; [auto with snd|auto with frm|apply safeT_rd|]. intros b _.
+      apply safeD_of_safe. apply safe_fill_rect; assumption.
+    - eapply safeD_bind; [auto with snd|auto with frm|apply safeD_of_safe; apply safe_rd_px|]. intros p _.
+      apply safeD_of_safe. apply safe_fill_rect; assumption. }
+  destruct (cc =? cTightJpeg).
+  { destruct (bypp =? 1); [apply safeD_fail|]. intros s' ts' _ _. exact I. }
+  destruct (cTightMaxSubencoding <? cc); [apply safeD_fail|].
+  eapply (safeD_bind _ (fun fl => match fl with
+                                   | Some (TFGradient, b) => rw <= cGradientRowMax /\ b = bits0
+                                   | Some (TFCopy, b) => b = bits0
+                                   | _ => True
+                                   end)).
+  { snd. }
+  { frm. }
+  { destruct (flag cc cTightExplicitFilter); [|apply safeD_ret; reflexivity].
+    eapply safeD_bind; [auto with snd|auto with frm|apply safeT_rd_u8|]. intros fid _.
+    destruct (fid =? cTightFilterCopy); [apply safeD_ret; reflexivity|].
+    destruct (fid =? cTightFilterPalette).
+    { eapply safeD_bind; [auto with snd|auto with frm|apply safeT_rd_u8|]. intros nc _.
+      destruct (nc + 1 <? 2); [apply safeD_ret; exact I|].
+      destruct (is888 f).
+      - eapply safeD_bind; [auto with snd|auto with frm|apply safeT_rd|]. intros b _. apply safeD_ret; exact I.
+      - eapply safeD_bind; [auto with snd|auto with frm|apply safeT_rd|]. intros b _. apply safeD_ret; exact I. }
+    destruct (fid =? cTightFilterGradient); cbn [andb]; [|apply safeD_fail].
+    destruct (Z.ltb_spec cGradientRowMax rw); [apply safeD_ret; exact I|].
+    eapply safeD_bind; [snd|frm| |].
+    - assert (E : (csizeof_tightPrevRow <? (if is888 f then rw * 3 else rw * 6)) = false).
+      { unfold csizeof_tightPrevRow, cGradientRowMax in *. destruct (is888 f); lia. }
+      rewrite E. apply (safeD_ret _ (fun _ => True)). exact I.
+    - intros _ _. apply safeD_ret. split; [assumption|reflexivity]. }
+  intros fl Hfl. destruct fl as [[flt bitspixel]|]; [|apply safeD_fail].
+  (* the row geometry: for the copy and gradient filters a row holds rw groups of pb bytes *)
+  set (rowsize := (rw * bitspixel + 7) / 8).
+  assert (Hshape : forall k (l : list Z), k <= rh ->
+            zlen (firstn (Z.to_nat k) (chunks rowsize l)) <= rh /\
+            match flt with
+            | TFPalette _ => True
+            | TFCopy => Forall (fun rb => zlen rb <= rw * pb) (firstn (Z.to_nat k) (chunks rowsize l))
+            | TFGradient => Forall (fun rb => zlen rb <= rw * pb) (firstn (Z.to_nat k) (chunks rowsize l)) /\ rw <= cGradientRowMax
+            end).
+  { intros k l Hk. destruct (firstn_rows_shape k rowsize l rh Hh Hk) as [S1 S2]. split; [exact S1|].
+    destruct flt as [|pal|]; [|exact I|].
+    - assert (Er : rowsize = rw * pb) by (unfold rowsize; rewrite Hfl; exact Hrs).
+      eapply Forall_impl; [|exact S2]. intros a Ha. cbn beta in *. rewrite Er in Ha. nia.
+    - destruct Hfl as [Hg Hfl]. assert (Er : rowsize = rw * pb) by (unfold rowsize; rewrite Hfl; exact Hrs).
+      split; [|exact Hg].
+      eapply Forall_impl; [|exact S2]. intros a Ha. cbn beta in *. rewrite Er in Ha. nia. }
+  assert (Hrows : forall code l k prev, k <= rh ->
+            safeD (DT rx ry rw rh) (fun _ => True)
+                  (tight_rows code f flt (is888 f) bypp rx ry rw rowsize (firstn (Z.to_nat k) (chunks rowsize l)) prev)).
+  { intros code l k prev Hk. destruct (Hshape k l Hk) as [S1 S2].
+    eapply safeD_weaken; [exact Hdim|].
+    eapply (safe_tight_rows code f flt (is888 f) bypp rx ry rw rh rowsize _ prev pb); auto. }
+  destruct (Z.ltb_spec (rh * rowsize) cTIGHT_MIN_TO_COMPRESS).
+  { eapply safeD_bind; [auto with snd|auto with frm|apply safeD_of_safe; apply safe_rd_buf; unfold cTIGHT_MIN_TO_COMPRESS, cRFB_BUFFER_SIZE in *; lia|].
+    intros b _.
+    eapply safeD_bind; [auto with snd|auto with frm|apply Hrows; lia|]. intros; apply safeD_ret; exact I. }
+  destruct nozlib.
+  { eapply safeD_bind; [auto with snd|frm|apply safeD_of_safe; apply clean_safe; unfold rd_compact, rd_compact_aux; cln|].
+    intros len _.
+    destruct (len <=? 0); [apply safeD_fail|].
+    destruct (Z.ltb_spec cRFB_BUFFER_SIZE len); [apply safeD_fail|].
+    destruct (Z.eqb_spec len (rh * rowsize)); cbn [negb andb]; [|apply safeD_fail].
+    eapply safeD_bind; [auto with snd|auto with frm|apply safeT_rd|]. intros b _.
+    eapply safeD_bind; [snd|frm| |].
+    { destruct (Z.ltb_spec cRFB_BUFFER_SIZE (rh * rowsize)); [lia|]. apply (safeD_ret _ (fun _ => True)). exact I. }
+    intros _ _.
+    eapply (safeD_bind _ (fun _ => True)); [destruct (len <? rh * rowsize); auto with snd|destruct (len <? rh * rowsize); frm| |].
+    { destruct (len <? rh * rowsize); [apply safeD_of_safe; apply safe_upd|apply safeD_ret; exact I]. }
+    intros _ _.
+    eapply safeD_bind; [auto with snd|auto with frm|apply Hrows; lia|]. intros; apply safeD_ret; exact I. }
+  eapply safeD_bind; [auto with snd|auto with frm|apply safeD_of_safe; apply safe_rd_stream|]. intros [ok data] _.
+  match goal with |- context [if ?b <? rowsize then _ else _] => destruct (b <? rowsize); [apply safeD_fail|] end.
+  destruct (negb ok); [apply safeD_fail|].
+  destruct (Z.ltb_spec rh (zlen data / rowsize)); cbn [andb]; [apply safeD_fail|].
+  eapply safeD_bind; [auto with snd|auto with frm|apply Hrows; lia|]. intros _ _.
+  destruct (zlen data / rowsize =? rh); [apply safeD_ret; exact I|apply safeD_fail].
+Qed.
+
+(* ---------------------------------------------------------------- the rectangle dispatcher of the repaired flow *)
+Definition DF : Z -> Z -> Z -> Prop := fun _ _ fx =>
+  Z.testbit fx 0 = true /\ Z.testbit fx 1 = true /\ Z.testbit fx 2 = true /\ Z.testbit fx 3 = true.
+Definition fixed0123 (s : cst) : Prop := DF (c_w s) (c_h s) (c_fix s).
+
+(* the encodings whose repaired decoders are not covered: TRLE, ZRLE (finding C08-F27 is open there) *)
+Definition weak_encs_fixed : list Z := [cE_TRLE; cE_ZRLE; cE_ZYWRLE].
+
+Lemma safeD_then_clean (D : Z -> Z -> Z -> Prop) {A B} (m : M A) (k : A -> M B) :
+  safeD D (fun _ => True) m -> (forall a, clean (k a)) -> safeD D (fun _ => True) (bind m k).
+Proof.
+  intros Hm Hk s ts Hs HD. unfold bind. specialize (Hm s ts Hs HD). destruct (m s ts) as [a s1 ts1| | | |]; auto.
+  specialize (Hk a s1 ts1). destruct (k a s1 ts1); auto.
+Qed.
+
+Theorem rect_body_safe_fixed x y w h enc :
+  0 <= x -> 0 <= y -> 0 <= w -> 0 <= h -> ~ In enc weak_encs_fixed -> safeD DF (fun _ => True) (rect_body x y w h enc).
+Proof.
+  intros Hx Hy Hw Hh Hnot. unfold rect_body.
+  destruct (enc =? cE_LastRect); [apply safeD_of_safe; apply clean_safe; cln|].
+  destruct ((enc =? cE_XCursor) || (enc =? cE_RichCursor)).
+  { apply safeD_of_safe. eapply safe_bind; [auto with snd|apply safe_dec_cursor|]. intros; apply safe_ret; exact I. }
+  destruct (enc =? cE_PointerPos); [apply safeD_of_safe; apply clean_safe; cln|].
+  destruct (enc =? cE_KeyboardLedState); [apply safeD_of_safe; apply clean_safe; cln|].
+  destruct (enc =? cE_NewFBSize); [apply safeD_of_safe; apply clean_safe; cln|].
+  destruct (enc =? cE_ExtDesktopSize); [apply safeD_of_safe; apply clean_safe; cln|].
+  destruct (enc =? cE_SupportedMessages); [apply safeD_of_safe; apply clean_safe; cln|].
+  destruct (enc =? cE_SupportedEncodings); [apply safeD_of_safe; apply clean_safe; cln|].
+  destruct (enc =? cE_ServerIdentity); [apply safeD_of_safe; apply clean_safe; cln|].
+  apply safeD_bind_get. intros s Hs HD ts. revert ts.
+  destruct (negb (enc =? cE_UltraZip) && ((c_w s <? x + w) || (c_h s <? y + h))) eqn:Echk; [intros; exact I|].
+  intros ts.
+  set (D' := fun W H fx => DF W H fx /\ W = c_w s /\ H = c_h s).
+  match goal with |- match ?m s ts with _ => _ end =>
+    assert (G : safeD D' (fun _ => True) m); [|exact (G s ts Hs (conj HD (conj eq_refl eq_refl)))] end.
+  assert (Hweak : forall e, In e weak_encs_fixed -> (enc =? e) = false).
+  { intros e He. destruct (Z.eqb_spec enc e); [subst; contradiction|reflexivity]. }
+  pose proof (Hweak cE_TRLE ltac:(cbn; auto)) as W2.
+  pose proof (Hweak cE_ZRLE ltac:(cbn; auto)) as W3. pose proof (Hweak cE_ZYWRLE ltac:(cbn; auto 6)) as W4.
+  apply safeD_then_clean; [|intros; cln].
+  cbv zeta. rewrite W2, W3, W4. cbn [orb].
+  set (ok := (f_bpp (c_fmt s) =? 8) || (f_bpp (c_fmt s) =? 16) || (f_bpp (c_fmt s) =? 32)).
+  destruct (enc =? cE_Raw); [apply safeD_of_safe; apply safe_dec_raw; assumption|].
+  destruct (enc =? cE_CopyRect); [apply safeD_of_safe; apply safe_dec_copyrect; assumption|].
+  destruct (enc =? cE_RRE); [destruct ok; apply safeD_of_safe; [apply safe_dec_rre; assumption|apply safe_ret; exact I]|].
+  destruct (enc =? cE_CoRRE); [destruct ok; apply safeD_of_safe; [apply safe_dec_corre; assumption|apply safe_ret; exact I]|].
+  destruct (enc =? cE_Hextile); [destruct ok; apply safeD_of_safe; [apply safe_dec_hextile; assumption|apply safe_ret; exact I]|].
+  destruct (enc =? cE_Ultra); [destruct ok; apply safeD_of_safe; [apply safe_dec_ultra; assumption|apply safe_ret; exact I]|].
+  destruct (Z.eqb_spec enc cE_UltraZip).
+  { destruct ok; [|apply safeD_ret; exact I].
+    eapply safeD_weaken; [|apply safe_dec_ultrazip]. intros W H fx [(F0 & _) _]. exact F0. }
+  destruct (enc =? cE_Zlib); [destruct ok; apply safeD_of_safe; [apply safe_dec_zlib; assumption|apply safe_ret; exact I]|].
+  destruct (Z.eqb_spec enc cE_Tight).
+  { destruct ok; [|apply safeD_ret; exact I].
+    eapply safeD_weaken; [|apply safe_dec_tight; assumption].
+    intros W H fx [(_ & F1 & F2 & F3) [-> ->]]. unfold DT. repeat split; auto.
+    - destruct (Z.eqb_spec enc cE_UltraZip); [contradiction|]. cbn [negb andb] in Echk. lia.
+    - destruct (Z.eqb_spec enc cE_UltraZip); [contradiction|]. cbn [negb andb] in Echk. lia. }
+  destruct (enc =? cE_QemuExtendedKeyEvent); [apply safeD_ret; exact I|apply safeD_fail].
+Qed.
+
+(* ---------------------------------------------------------------- message level, repaired flow *)
+Definition oob_origin_fixed (c : Z) : Prop :=
+  exists s x y w h enc ts, st_ok s /\ fixed0123 s /\ 0 <= x /\ 0 <= y /\ 0 <= w /\ 0 <= h /\ In enc weak_encs_fixed /\
+                           rect_body x y w h enc s ts = Oob c.
+
+Lemma fixed0123_keeps s s' : keeps s s' -> fixed0123 s -> fixed0123 s'.
+Proof. intros (_ & _ & E) H. unfold fixed0123, DF in *. now rewrite E. Qed.
+
+Lemma in_weak_fixed_dec enc : {In enc weak_encs_fixed} + {~ In enc weak_encs_fixed}.
+Proof. apply in_dec. apply Z.eq_dec. Qed.
+
+Lemma do_rect_oob_fixed s ts c : st_ok s -> fixed0123 s -> do_rect s ts = Oob c -> oob_origin_fixed c.
+Proof.
+  intros Hs Hf E. rewrite do_rect_eq in E. unfold bind in E.
+  pose proof (sound_rd_u16 s ts (proj1 Hs)) as S1. pose proof (safe_rd_u16 s ts Hs) as V1. pose proof (clean_rd_u16 s ts) as C1.
+  destruct (rd_u16 s ts) as [x s1 ts1| | | |]; try discriminate; [|contradiction].
+  assert (Hs1 : st_ok s1) by (eapply st_ok_keeps; [apply S1|exact Hs]).
+  assert (Hf1 : fixed0123 s1) by (eapply fixed0123_keeps; [apply S1|exact Hf]).
+  pose proof (sound_rd_u16 s1 ts1 (proj1 Hs1)) as S2. pose proof (safe_rd_u16 s1 ts1 Hs1) as V2. pose proof (clean_rd_u16 s1 ts1) as C2.
+  destruct (rd_u16 s1 ts1) as [y s2 ts2| | | |]; try discriminate; [|contradiction].
+  assert (Hs2 : st_ok s2) by (eapply st_ok_keeps; [apply S2|exact Hs1]).
+  assert (Hf2 : fixed0123 s2) by (eapply fixed0123_keeps; [apply S2|exact Hf1]).
+  pose proof (sound_rd_u16 s2 ts2 (proj1 Hs2)) as S3. pose proof (safe_rd_u16 s2 ts2 Hs2) as V3. pose proof (clean_rd_u16 s2 ts2) as C3.
+  destruct (rd_u16 s2 ts2) as [w s3 ts3| | | |]; try discriminate; [|contradiction].
+  assert (Hs3 : st_ok s3) by (eapply st_ok_keeps; [apply S3|exact Hs2]).
+  assert (Hf3 : fixed0123 s3) by (eapply fixed0123_keeps; [apply S3|exact Hf2]).
+  pose proof (sound_rd_u16 s3 ts3 (proj1 Hs3)) as S4. pose proof (safe_rd_u16 s3 ts3 Hs3) as V4. pose proof (clean_rd_u16 s3 ts3) as C4.
+  destruct (rd_u16 s3 ts3) as [h s4 ts4| | | |]; try discriminate; [|contradiction].
+  assert (Hs4 : st_ok s4) by (eapply st_ok_keeps; [apply S4|exact Hs3]).
+  assert (Hf4 : fixed0123 s4) by (eapply fixed0123_keeps; [apply S4|exact Hf3]).
+  pose proof (sound_rd_u32 s4 ts4 (proj1 Hs4)) as S5. pose proof (clean_rd_u32 s4 ts4) as C5.
+  destruct (rd_u32 s4 ts4) as [enc s5 ts5| | | |]; try discriminate; [|contradiction].
+  assert (Hs5 : st_ok s5) by (eapply st_ok_keeps; [apply S5|exact Hs4]).
+  assert (Hf5 : fixed0123 s5) by (eapply fixed0123_keeps; [apply S5|exact Hf4]).
+  cbn beta iota in V1, V2, V3, V4.
+  destruct (in_weak_fixed_dec enc) as [Hin|Hnot].
+  - exists s5, x, y, w, h, enc, ts5. split; [exact Hs5|]. split; [exact Hf5|]. repeat split; try lia; assumption.
+  - pose proof (rect_body_safe_fixed x y w h enc ltac:(lia) ltac:(lia) ltac:(lia) ltac:(lia) Hnot s5 ts5 Hs5 Hf5) as Hsafe.
+    rewrite E in Hsafe. contradiction.
+Qed.
+
+Lemma rect_loop_oob_fixed n : forall s ts c, st_ok s -> fixed0123 s -> rect_loop n s ts = Oob c -> oob_origin_fixed c.
+Proof.
+  induction n as [|n IH]; intros s ts c Hs Hf E; cbn [rect_loop] in E; [discriminate|].
+  unfold bind in E. pose proof (sound_do_rect s ts (proj1 Hs)) as S1.
+  destruct (do_rect s ts) as [b s1 ts1| | | |] eqn:E1; try discriminate.
+  - destruct b; [discriminate|].
+    apply (IH s1 ts1 c); [eapply st_ok_keeps; [apply S1|exact Hs]|eapply fixed0123_keeps; [apply S1|exact Hf]|exact E].
+  - inversion E; subst. eapply do_rect_oob_fixed; eauto.
+Qed.
+
+Theorem no_oob_fixed s ts c : st_ok s -> fixed0123 s -> handle_msg s ts = Oob c -> oob_origin_fixed c.
+Proof.
+  intros Hs Hf E. rewrite handle_msg_eq in E. unfold bind in E.
+  pose proof (sound_rd_u8 s ts (proj1 Hs)) as S1. pose proof (clean_rd_u8 s ts) as C1.
+  destruct (rd_u8 s ts) as [t s1 ts1| | | |]; try discriminate; [|contradiction].
+  assert (Hs1 : st_ok s1) by (eapply st_ok_keeps; [apply S1|exact Hs]).
+  assert (Hf1 : fixed0123 s1) by (eapply fixed0123_keeps; [apply S1|exact Hf]).
+  unfold handle_body in E.
+  destruct (t =? cM_SetColourMapEntries); [discriminate|].
+  destruct (t =? cM_FramebufferUpdate).
+  { unfold bind in E.
+    match type of E with context [rd ?n s1 ts1] =>
+      pose proof (sound_rd n s1 ts1 (proj1 Hs1)) as S2; pose proof (clean_rd n s1 ts1) as C2;
+      destruct (rd n s1 ts1) as [hdr s2 ts2| | | |]; try discriminate; [|contradiction] end.
+    assert (Hs2 : st_ok s2) by (eapply st_ok_keeps; [apply S2|exact Hs1]).
+    assert (Hf2 : fixed0123 s2) by (eapply fixed0123_keeps; [apply S2|exact Hf1]).
+    match type of E with context [rect_loop ?n s2 ts2] =>
+      destruct (rect_loop n s2 ts2) as [u s3 ts3| | | |] eqn:E3; try discriminate end.
+    - pose proof (clean_send_incr s3 ts3) as C4. destruct (send_incr s3 ts3) as [u4 s4 ts4| | | |]; try discriminate; try contradiction.
+      all: try (pose proof (clean_log EvFinished s4 ts4) as C5; rewrite E in C5; contradiction).
+    - inversion E; subst. eapply rect_loop_oob_fixed; eauto. }
+  match type of E with ?m s1 ts1 = _ => assert (Cm : clean m) end.
+  { cln. }
+  specialize (Cm s1 ts1). rewrite E in Cm. contradiction.
 Qed.
